@@ -2618,7 +2618,9 @@ class ProvDocument(ProvBundle):
             if hasattr(source, "read"):
                 return serializer.deserialize(source, **args)
             else:
-                with open(source) as f:
+                # (binary: the serializations are UTF-8, whatever encoding
+                # text files have by default on this platform)
+                with open(source, "rb") as f:
                     return serializer.deserialize(f, **args)
 
 
